@@ -45,6 +45,84 @@ pub fn specs() -> Vec<PropSpec> {
             assumptions: COMMON_ASSUMPTIONS,
         },
         PropSpec {
+            id: "C02",
+            parts: &[("c02", 480, 6000)],
+            level: "exploration",
+            tags: &["C02"],
+            rule: "Each evaluation is one seeded history biased towards \
+                entitlement changes at every level of a 2-3 level tree \
+                (grow, shrink to partial overlap, to nothing, regain; second \
+                parents; suspend/unsuspend). After every API operation and \
+                every single background task the stored object set of every \
+                CA is decoded: each child certificate must lie inside the \
+                issuing key's certificate, must not be empty, and a \
+                certificate seen for the first time must equal entitlement \
+                ∩ issuer resources (or previous certificate ∩ issuer \
+                resources for re-issues the child did not ask for). At the \
+                end: at most 8 refresh rounds must bring every child to \
+                exactly one certificate per entitled parent class with \
+                exactly the entitled resources and no open requests, and \
+                two further rounds must not add a single command to any \
+                CA's history. Non-trivial/distinct as for C01.",
+            assumptions: COMMON_ASSUMPTIONS,
+        },
+        PropSpec {
+            id: "C03",
+            parts: &[("c03", 480, 6000)],
+            level: "exploration",
+            tags: &["C03"],
+            rule: "Each evaluation is one seeded history biased towards \
+                everything that ends an object's life (re-issue, config \
+                removal, child remove/suspend, resource loss, parent \
+                removal, CA deletion, key retirement). A ledger records \
+                every (issuer key, serial, notAfter, URI) the relying-party \
+                walk ever saw; at every quiescence each entry that is no \
+                longer in the tree and not expired must be on the CRL of \
+                its issuing key as long as that key publishes one, and \
+                nothing on a CRL may still be listed. Non-trivial/distinct \
+                as for C01.",
+            assumptions: COMMON_ASSUMPTIONS,
+        },
+        PropSpec {
+            id: "C04",
+            parts: &[("c04", 480, 6000)],
+            level: "exploration",
+            tags: &["C04"],
+            rule: "Each evaluation is one seeded history in which a third \
+                of the operations are key-roll steps interleaved with \
+                configuration, entitlement and child operations and syncs. \
+                After every operation and every single background task: no \
+                panic or daemon exit, key state and object sets in step, \
+                no products under the staging or old key, activation moves \
+                exactly the same product names; at quiescence the \
+                published tree shows products under one key per class \
+                only; at the end 8 rounds of refresh/pump/activate must \
+                bring every class to the single active key state. \
+                Non-trivial/distinct as for C01.",
+            assumptions: COMMON_ASSUMPTIONS,
+        },
+        PropSpec {
+            id: "C14",
+            parts: &[("c14", 480, 6000)],
+            level: "exploration",
+            tags: &["C14"],
+            rule: "Each evaluation is one seeded history on a swarm-drawn \
+                timing configuration (publish next 2-48 h, margins 1..next-1, \
+                validities 2-60 weeks with margins 1..validity-1) with \
+                clock advances of minutes to 45 days between content \
+                changes and key-roll steps. The stored object sets are \
+                decoded before and after every RepublishIfNeeded and \
+                RenewObjectsIfNeeded run of the real scheduler: due sets \
+                must be re-issued with number+1 and a window containing \
+                now, classes with nothing due must stay byte-identical, \
+                expiring objects must be renewed and others left alone, \
+                product names (payloads) must not change, numbers never \
+                decrease, and at quiescence manifest and CRL numbers agree \
+                and no validity window excludes the present. \
+                Non-trivial/distinct as for C01.",
+            assumptions: COMMON_ASSUMPTIONS,
+        },
+        PropSpec {
             id: "C05",
             parts: &[("c05", 480, 6000)],
             level: "exploration",
